@@ -224,11 +224,76 @@ def gen_file(path):
     return out
 
 
+SIM_UPDATES = ("modify_vehicle", "modify_station", "modify_base", "modify_request", "remove_request", "add_request", "add_request_safe")
+PAIR_METHODS = ("return_charger", "checkout_charger", "enqueue_for_charger", "dequeue_for_charger", "return_stall", "update_prices")   # (error, entity)
+SELF_METHODS = ("checkout_stall", "receive_payment", "send_payment", "tick_energy_expended", "tick_energy_gained", "tick_distance_traveled_km",
+                "assign_dispatched_vehicle", "unassign_dispatched_vehicle", "modify_energy", "modify_vehicle_state", "modify_position",
+                "modify_driver_state", "set_charge_target", "add_passengers", "drop_off_passenger", "update_route", "tick_charge_time")
+
+
+def gen_file2(path):
+    """operator set 2 -- forgotten bookkeeping: (kwdrop) one keyword of a `_replace(...)` / `replace(...)` call dropped, so that field keeps
+    its old value; (updrop) the result of one functional state update thrown away: `err, s2 = modify_x(s1, e)` -> `err, s2 = (None, s1)`,
+    `err, st2 = st.return_charger(c)` -> `(None, st)`, `v2 = v.send_payment(x)` -> `v2 = v`"""
+    src = open(path).read()
+    lines = src.split("\n")
+    tree = ast.parse(src)
+    skip = _skip_nodes(tree)
+    out = []
+
+    def add(kind, lineno, c0, c1, new, note):
+        old = lines[lineno - 1][c0:c1]
+        if old != new:
+            out.append({"file": os.path.relpath(path, REPO), "line": lineno, "c0": c0, "c1": c1, "old": old, "new": new, "kind": kind, "note": note})
+
+    def name_of(f):
+        return f.attr if isinstance(f, ast.Attribute) else (f.id if isinstance(f, ast.Name) else None)
+
+    for n in ast.walk(tree):
+        if id(n) in skip:
+            continue
+        if isinstance(n, ast.Call) and name_of(n.func) in ("_replace", "replace") and n.keywords:
+            if name_of(n.func) == "replace" and isinstance(n.func, ast.Attribute) and not (isinstance(n.func.value, ast.Name) and n.func.value.id == "dataclasses"):
+                continue   # str.replace and friends
+            for kw in n.keywords:
+                if kw.arg is None or kw.arg == "instance_id" or kw.lineno != kw.end_lineno:
+                    continue
+                line = lines[kw.lineno - 1]
+                c0, c1 = kw.col_offset, kw.end_col_offset
+                mm = re.match(r"\s*,\s*", line[c1:])
+                if mm:
+                    c1 += mm.end()
+                add("kwdrop", kw.lineno, c0, c1, "", f"keyword {kw.arg} of {name_of(n.func)}() dropped")
+        if isinstance(n, ast.Call):
+            c = n
+            fn = name_of(c.func)
+            seg = lambda x: lines[x.lineno - 1][x.col_offset:x.end_col_offset] if x.lineno == x.end_lineno else None
+            new = None
+            if fn in SIM_UPDATES and c.args and seg(c.args[0]):
+                new = f"(None, {seg(c.args[0])})"
+            elif fn in PAIR_METHODS and isinstance(c.func, ast.Attribute) and seg(c.func.value):
+                new = f"(None, {seg(c.func.value)})"
+            elif fn in SELF_METHODS and isinstance(c.func, ast.Attribute) and seg(c.func.value):
+                new = seg(c.func.value)
+            if new and c.lineno == c.end_lineno:
+                add("updrop", c.lineno, c.col_offset, c.end_col_offset, new, f"result of {fn}() thrown away")
+            elif new:
+                out.append({"file": os.path.relpath(path, REPO), "line": c.lineno, "eline": c.end_lineno, "c0": c.col_offset, "c1": c.end_col_offset,
+                            "old": "<multi-line call>", "new": new, "kind": "updrop", "note": f"result of {fn}() thrown away"})
+    for m in out:
+        m["id"] = hashlib.sha1(f"{m['file']}:{m['line']}:{m['c0']}:{m['kind']}:{m['new']}".encode()).hexdigest()[:10]
+    return out
+
+
+OPS = os.environ.get("MUTSCAN_OPS", "1")
+OUTDIR = "mutscan" if OPS == "1" else "mutscan" + OPS
+
+
 def cmd_gen(args):
     os.makedirs(WORK, exist_ok=True)
     allm = []
     for f, props in files():
-        ms = gen_file(f)
+        ms = gen_file(f) if OPS == "1" else gen_file2(f)
         for m in ms:
             m["props"] = props
         allm += ms
@@ -253,6 +318,11 @@ def load(name):
 def apply(m, root):
     p = os.path.join(root, m["file"])
     lines = open(p).read().split("\n")
+    if "eline" in m:   # replacement spanning several lines (operator set 2)
+        first, last = lines[m["line"] - 1], lines[m["eline"] - 1]
+        lines[m["line"] - 1:m["eline"]] = [first[:m["c0"]] + m["new"] + last[m["c1"]:]]
+        open(p, "w").write("\n".join(lines))
+        return
     line = lines[m["line"] - 1]
     assert line[m["c0"]:m["c1"]] == m["old"], (line, m)
     lines[m["line"] - 1] = line[:m["c0"]] + m["new"] + line[m["c1"]:]
@@ -437,7 +507,7 @@ def cmd_report(args):
     for r in load("stageC.jsonl"):   # second pass over the survivors
         if r.get("c") == "caught" and b.get(r["id"], {}).get("b") == "survived":
             b[r["id"]] = dict(b[r["id"]], b="caught", by=r["by"], key=r.get("key"), second_pass=True)
-    tri_p = os.path.join(VERIF, "mutscan", "triage.json")
+    tri_p = os.path.join(VERIF, OUTDIR, "triage.json")
     tri = json.load(open(tri_p)) if os.path.exists(tri_p) else {}
     out = {"generated": len(ms), "suite_run_on": len(a), "killed_by_the_suite": sum(1 for r in a.values() if r["a"] == "killed_by_tests"),
            "survived_the_suite": sum(1 for r in a.values() if r["a"] == "survived_tests"), "scanned": len(b),
@@ -457,9 +527,9 @@ def cmd_report(args):
         k = (s["triage"] or {}).get("class", "untriaged")
         cls[k] = cls.get(k, 0) + 1
     out["not_caught_triage"] = cls
-    os.makedirs(os.path.join(VERIF, "mutscan"), exist_ok=True)
-    json.dump(out, open(os.path.join(VERIF, "mutscan", "summary.json"), "w"), indent=1, sort_keys=True)
-    json.dump(surv, open(os.path.join(VERIF, "mutscan", "not_caught.json"), "w"), indent=1)
+    os.makedirs(os.path.join(VERIF, OUTDIR), exist_ok=True)
+    json.dump(out, open(os.path.join(VERIF, OUTDIR, "summary.json"), "w"), indent=1, sort_keys=True)
+    json.dump(surv, open(os.path.join(VERIF, OUTDIR, "not_caught.json"), "w"), indent=1)
     print(json.dumps(out, indent=1, sort_keys=True))
 
 
